@@ -1,8 +1,8 @@
 (* Executable model of what ninja PERSISTS around one command, for ONE build statement in isolation:
      Builder::StartEdge      lock-file tick (= command_start_time_), rspfile            (src/build.cc)
      Builder::FinishCommand  ExtractDeps (depfile removal for deps=gcc), restat re-stat and the
-                             record_mtime rule, rspfile removal, BuildLog::RecordCommand (ONE flushed
-                             line PER OUTPUT), DepsLog::RecordDeps per output            (src/build.cc)
+                             record_mtime rule, rspfile removal, DepsLog::RecordDeps per output,
+                             THEN BuildLog::RecordCommand (ONE flushed line PER OUTPUT)  (src/build.cc)
      Builder::Cleanup        interrupt                                                   (src/build.cc)
      RecomputeOutputDirty<FIRSTRUN>, ImplicitDepLoader::LoadDeps*, the tail of
      RecomputeNodeDirty      the dirty test of the NEXT run                              (src/graph.cc)
@@ -180,18 +180,22 @@ Definition deps_actions (c : cfg) (r : run) (st0 : pstate) : list action :=
   then deps_appends 0 (written (c_restat c) (p_outs st0) (r_writes r)) (r_deps r)
   else [].
 
-(* THE ORDER OF THE CODE *)
+(* THE ORDER OF THE CODE (after the fix "record deps before the build log entry in
+   Builder::FinishCommand"): ... rspfile removal, RecordDeps for every output, THEN RecordCommand *)
 Definition run_actions (c : cfg) (r : run) (st0 : pstate) : list action :=
+  start_actions c r ++ cmd_actions c r st0 ++ finish_actions c
+  ++ deps_actions c r st0 ++ log_actions c r st0.
+
+(* the order of the code BEFORE that fix: RecordCommand, then RecordDeps.  Kept to document why the
+   order was changed (CrashProofs.restat_deps_lost_old_order_refuted). *)
+Definition run_actions_old_order (c : cfg) (r : run) (st0 : pstate) : list action :=
   start_actions c r ++ cmd_actions c r st0 ++ finish_actions c
   ++ log_actions c r st0 ++ deps_actions c r st0.
 
-(* two orders the code does NOT use (for C07_order_matters) *)
+(* an order the code never used (for C07_order_matters): log lines before the command's writes *)
 Definition run_actions_log_first (c : cfg) (r : run) (st0 : pstate) : list action :=
   start_actions c r ++ log_actions c r st0 ++ cmd_actions c r st0 ++ finish_actions c
   ++ deps_actions c r st0.
-Definition run_actions_deps_first (c : cfg) (r : run) (st0 : pstate) : list action :=
-  start_actions c r ++ cmd_actions c r st0 ++ finish_actions c
-  ++ deps_actions c r st0 ++ log_actions c r st0.
 
 (* a crash: the first k actions happened; optionally action k is an append that reached the disk
    only partially *)
@@ -207,8 +211,11 @@ Definition crash (acts : list action) (k : nat) (torn : bool) : list action :=
 (* the prefix lengths that matter *)
 Definition cmd_done_len (c : cfg) (r : run) (st0 : pstate) : nat :=
   length (start_actions c r ++ cmd_actions c r st0).
-Definition logs_done_len (c : cfg) (r : run) (st0 : pstate) : nat :=
-  length (start_actions c r ++ cmd_actions c r st0 ++ finish_actions c ++ log_actions c r st0).
+(* number of actions before the first build-log line: everything else, all deps records included *)
+Definition pre_len (c : cfg) (r : run) (st0 : pstate) : nat :=
+  length (start_actions c r ++ cmd_actions c r st0 ++ finish_actions c ++ deps_actions c r st0).
+(* the commit point: the LAST build-log line, which is the last action *)
+Definition commit_len (c : cfg) (r : run) (st0 : pstate) : nat := length (run_actions c r st0).
 
 (* ------------------------------------------------------------------ the next run's dirty test *)
 (* the "most_recent_input" update of RecomputeEdgesInputsDirty (strictly newer replaces) *)
@@ -326,6 +333,6 @@ Definition ex_st0 : pstate := mkP [mkO None None; mkO None None] None None false
 
 Example ex_actions : run_actions ex_cfg ex_run ex_st0 =
   [AWriteLock 10; AWriteRsp; ACmdWrite 0 100 11; ACmdWriteDepfile [7%nat]; ACmdWrite 1 101 12;
-   ARemoveDepfile; ARemoveRsp; ALogAppend 0 77 10; ALogAppend 1 77 10;
-   ADepsAppend 0 11 [7%nat]; ADepsAppend 1 12 [7%nat]].
+   ARemoveDepfile; ARemoveRsp; ADepsAppend 0 11 [7%nat]; ADepsAppend 1 12 [7%nat];
+   ALogAppend 0 77 10; ALogAppend 1 77 10].
 Proof. vm_compute. reflexivity. Qed.
